@@ -44,6 +44,7 @@ var c14Schema = refcoerce.Schema{
 	"Other": {Kind: "INPUT_OBJECT", Fields: []refcoerce.Field{
 		{Name: "first", Type: &refcoerce.Type{Named: "Int"}},
 		{Name: "z", Type: &refcoerce.Type{Named: "Int"}},
+		{Name: "r", Type: &refcoerce.Type{Named: "Float"}},
 	}},
 	"In": {Kind: "INPUT_OBJECT", Fields: []refcoerce.Field{
 		{Name: "aa", Type: &refcoerce.Type{Named: "Other"}},
@@ -113,7 +114,7 @@ func c14Setup() *c14Env {
 	c14Once.Do(func() {
 		e := &c14Env{types: c14Types(), ops: map[string]*ast.OperationDefinition{}}
 		var sb strings.Builder
-		sb.WriteString("scalar Any\nenum Kind { DOG CAT }\ninput Other { first: Int z: Int }\ninput In { aa: Other a: Int b: String! c: [In] d: In e: Int! = 5 k: Kind m: [[Int!]] }\ntype Query {\n")
+		sb.WriteString("scalar Any\nenum Kind { DOG CAT }\ninput Other { first: Int z: Int r: Float }\ninput In { aa: Other a: Int b: String! c: [In] d: In e: Int! = 5 k: Kind m: [[Int!]] }\ntype Query {\n")
 		for i, t := range e.types {
 			fmt.Fprintf(&sb, "  t%d(x: %s): Int\n", i, t.String())
 		}
@@ -258,7 +259,7 @@ func genValue(ch *explore.Chooser, s refcoerce.Schema, t *refcoerce.Type, nest i
 		}
 		return m
 	}
-	switch ch.Deviate(20) {
+	switch ch.Deviate(23) {
 	case 0:
 		return base()
 	case 1:
@@ -332,9 +333,22 @@ func genValue(ch *explore.Chooser, s refcoerce.Schema, t *refcoerce.Type, nest i
 		m["aa"] = shared
 		m["c"] = []any{shared}
 		return m
-	default:
+	case 19:
 		m := base()
 		m["aa"] = map[string]any{"first": 1, "z": nil}
+		return m
+	case 20:
+		// maps with an element type of the caller's: integers are valid Float input
+		m := base()
+		m["aa"] = map[string]int{"first": 1, "r": 2}
+		return m
+	case 21:
+		m := base()
+		m["aa"] = map[string]int64{"r": 3, "z": 4}
+		return m
+	default:
+		m := base()
+		m["aa"] = map[string]float64{"r": 1.5}
 		return m
 	}
 }
